@@ -63,14 +63,16 @@ Proof.
   induction is as [|i is IH]; simpl; intros m m' I H.
   - inversion H; subst. split; auto. apply freed_mono_refl.
   - destruct (step i m) as [[m1| | |]|] eqn:S; try discriminate.
-    destruct (IH m1 m' (step_inv _ _ _ I S) H) as [I' Mo]. split; auto.
-    eapply freed_mono_trans; eauto. eapply step_freed; eauto.
+    destruct (traps i m).
+    + inversion H; subst. split. eapply step_inv; eauto. eapply step_freed; eauto.
+    + destruct (IH m1 m' (step_inv _ _ _ I S) H) as [I' Mo]. split; auto.
+      eapply freed_mono_trans; eauto. eapply step_freed; eauto.
 Qed.
 Theorem run_no_uaf : forall is m, Inv m -> run is m <> Some UAF /\ run is m <> Some OutOfFuel.
 Proof.
   induction is as [|i is IH]; simpl; intros m I. split; discriminate.
   destruct (step i m) as [[m1| | |]|] eqn:S; try (split; discriminate).
-  - apply IH. eapply step_inv; eauto.
+  - destruct (traps i m). split; discriminate. apply IH. eapply step_inv; eauto.
   - destruct (step_no_uaf i m I). congruence.
   - destruct (step_no_uaf i m I). congruence.
 Qed.
@@ -80,7 +82,9 @@ Proof.
   - inversion H; subst; auto.
   - apply orb_false_iff in L. destruct L as [L1 L2].
     destruct (step i m) as [[m1| | |]|] eqn:S; try discriminate.
-    apply (IH m1 m'); auto. eapply step_exact; eauto.
+    destruct (traps i m).
+    + inversion H; subst. eapply step_exact; eauto.
+    + apply (IH m1 m'); auto. eapply step_exact; eauto.
 Qed.
 
 (* ---- the initial state *)
@@ -147,4 +151,76 @@ Proof.
   intros m [[_ [_ Pz]] E] x L. unfold is_live in L. destruct (get (hp m) x) as [[rc o|]|] eqn:G; try discriminate.
   specialize (Pz _ _ _ G). specialize (E x). rewrite cnt_nil in E. unfold rcof in E. rewrite G in E.
   apply cnt_pos_in. rewrite cnt_app. lia.
+Qed.
+
+(* ---- trap paths of the array opcodes (out-of-range index, empty ARR_POP, not an array): the popped operands are
+   released, nothing is forgotten, so the terminal step keeps ref_count = in-degree *)
+Definition pop_state (m : mstate) : mstate :=
+  match stack m with
+  | v :: s => M s (globals m) (frames m) (v :: regs m) (hp m)
+  | [] => set_regs m (VNon :: regs m)
+  end.
+Lemma run_pop : forall m, run_uop UPop m = Ok (pop_state m).
+Proof. intros. unfold pop_state. simpl. destruct (stack m); reflexivity. Qed.
+Lemma regs_pop : forall m, regs (pop_state m) = peek m 0 :: regs m.
+Proof. intros. unfold pop_state, peek. destruct m as [st gl fr rg h]. simpl. destruct st; reflexivity. Qed.
+Lemma peek_pop : forall m k, peek (pop_state m) k = peek m (S k).
+Proof. intros. unfold pop_state, peek. destruct m as [st gl fr rg h]. simpl. destruct st; simpl; auto. destruct k; reflexivity. Qed.
+Lemma leaks_pop : forall us m, leaks_uops (UPop :: us) m = leaks_uops us (pop_state m).
+Proof. intros. cbn [leaks_uops uop_leaks orb]. rewrite run_pop. reflexivity. Qed.
+Lemma leaks_drop_non : forall us m r, regs m = VNon :: r -> leaks_uops (UDrop :: us) m = leaks_uops us (set_regs m r).
+Proof. intros. cbn [leaks_uops uop_leaks]. unfold run_uop. rewrite H. reflexivity. Qed.
+Lemma regs_set_regs : forall m r, regs (set_regs m r) = r.
+Proof. reflexivity. Qed.
+Lemma is_non_eq : forall v, is_non v = true -> v = VNon.
+Proof. destruct v; simpl; congruence. Qed.
+
+Definition array_trap_op (i : instr) : bool :=
+  match i with IArrPop | IArrGet _ | IArrSet _ | IArrRemove _ => true | _ => false end.
+(* the index operand is a scalar (it is never released by these handlers, on any path) *)
+Definition index_scalar (i : instr) (m : mstate) : bool :=
+  match i with
+  | IArrGet _ | IArrRemove _ => is_non (peek m 0)
+  | IArrSet _ => is_non (peek m 1)
+  | _ => true
+  end.
+
+Lemma array_trap_no_leak : forall i m, array_trap_op i = true -> traps i m = true -> index_scalar i m = true ->
+  step_leaks i m = false.
+Proof.
+  intros i m A T X. unfold step_leaks. destruct i; simpl in A; try discriminate.
+  - (* ARR_POP *) simpl in T. simpl. apply negb_true_iff in T. rewrite T. apply no_forget_leaks. reflexivity.
+  - (* ARR_GET *)
+    assert (U: ucode (IArrGet idx) m = Some [UPop; UDrop; UPop; URelease]).
+    { simpl in *. destruct (has_kind m (peek m 1) KArr); auto. simpl in T.
+      destruct (idx_in idx (vals_len m (peek m 1))); auto; discriminate. }
+    rewrite U. rewrite leaks_pop. simpl in X. apply is_non_eq in X.
+    rewrite (leaks_drop_non _ _ (regs m)) by (rewrite regs_pop, X; reflexivity).
+    apply no_forget_leaks. reflexivity.
+  - (* ARR_SET *)
+    assert (U: ucode (IArrSet idx) m = Some [UPop; UPop; UDrop; UPop; URelease; URelease]).
+    { simpl in *. destruct (has_kind m (peek m 2) KArr); auto. simpl in T.
+      destruct (idx_in idx (vals_len m (peek m 2))); auto; discriminate. }
+    rewrite U. rewrite !leaks_pop. simpl in X. apply is_non_eq in X.
+    rewrite (leaks_drop_non _ _ (peek m 0 :: regs m)) by (rewrite regs_pop, peek_pop, regs_pop, X; reflexivity).
+    apply no_forget_leaks. reflexivity.
+  - (* ARR_REMOVE *)
+    assert (U: ucode (IArrRemove idx) m = Some [UPop; UDrop; UPop; URelease]).
+    { simpl in *. destruct (has_kind m (peek m 1) KArr); auto. simpl in T.
+      destruct (idx_in idx (vals_len m (peek m 1))); auto; discriminate. }
+    rewrite U. rewrite leaks_pop. simpl in X. apply is_non_eq in X.
+    rewrite (leaks_drop_non _ _ (regs m)) by (rewrite regs_pop, X; reflexivity).
+    apply no_forget_leaks. reflexivity.
+Qed.
+
+Theorem array_trap_exact : forall i m m', ExactInv m -> array_trap_op i = true -> traps i m = true ->
+  index_scalar i m = true -> step i m = Some (Ok m') -> ExactInv m'.
+Proof. intros. eapply step_exact; eauto. apply array_trap_no_leak; auto. Qed.
+
+(* the out-of-range condition is the 64-bit one: negative and >= length are out, whatever the low 32 bits say *)
+Lemma idx_in_spec : forall idx len j, idx_in idx len = Some j <-> (0 <= idx < Z.of_nat len)%Z /\ j = Z.to_nat idx.
+Proof.
+  intros. unfold idx_in. destruct (Z.leb 0 idx) eqn:A; destruct (Z.ltb idx (Z.of_nat len)) eqn:B; simpl;
+  try apply Z.leb_le in A; try apply Z.ltb_lt in B; try apply Z.leb_gt in A; try apply Z.ltb_ge in B;
+  split; intros H; try discriminate; try (inversion H; subst; split; auto; lia); destruct H; try lia; subst; reflexivity.
 Qed.
